@@ -436,6 +436,26 @@ def split_out(lines):
     return hs
 
 
+def read_histories(path):
+    """a corpus file (one op per line, `#` comments, each history starts with `new <n>`) or a replays/C13-*.json file"""
+    text = open(path).read()
+    if text.lstrip().startswith("{"):
+        import json
+        lines = json.loads(text)["replay"]["history"]
+    else:
+        lines = text.split("\n")
+    hs = []
+    for l in lines:
+        l = l.strip()
+        if not l or l.startswith("#"):
+            continue
+        if l.startswith("new "):
+            hs.append([l])
+        elif hs:
+            hs[-1].append(l)
+    return hs
+
+
 def build(ctx):
     orac = ctx.oracle_build()
     here = os.path.join(ctx.famdir, "harness")
@@ -466,6 +486,15 @@ def minimise(ctx, impl, h, key):
         if not fails(body):
             return h
         body = vlib.ddmin(body, fails, max_tests=250)
+        # shrink the caller strings too: a long buffer becomes "a\0" when the failure does not depend on it
+        for n, o in enumerate(body):
+            w = o.split()
+            for j, t in enumerate(w):
+                if re.match(r"X[0-9a-f]*:\d+$", t) and t != "X6100:2":
+                    cand = body[:n] + [" ".join(w[:j] + ["X6100:2"] + w[j + 1:])] + body[n + 1:]
+                    if fails(cand):
+                        body = cand
+                        w = body[n].split()
         # drop closing destroys that are not needed
         for i in range(nobj):
             t2 = [t for t in tail if t != "destroy %d" % i]
@@ -580,20 +609,21 @@ def run(ctx):
     corpus = []
     if os.path.isdir(cdir):
         for fn in sorted(os.listdir(cdir)):
-            cur = None
-            for l in open(os.path.join(cdir, fn)):
-                l = l.strip()
-                if not l or l.startswith("#"):
-                    continue
-                if l.startswith("new "):
-                    cur = [l]
-                    corpus.append(cur)
-                elif cur is not None:
-                    cur.append(l)
+            corpus += read_histories(os.path.join(cdir, fn))
     if corpus:
         (rcm, mo, em), (rci, io, ei) = pair(corpus)
         evaluate(ctx, impl, corpus, mo, io, "corpus")
-        ctx.extra["corpus_histories"] = len(corpus)
+    ctx.extra["corpus_histories"] = len(corpus)
+
+    # --replay <file>: re-run only the history of a replay file written by an earlier run (or an op-per-line file)
+    rf = getattr(ctx, "replay_file", None)
+    if rf:
+        hs = read_histories(rf)
+        (rcm, mo, em), (rci, io, ei) = pair(hs)
+        for l in io:
+            ctx.log("impl : " + l[:400])
+        evaluate(ctx, impl, hs, mo, io, "replay")
+        return
 
     nh = 60000 if thorough else 4000
     batch = [gen_history(ctx.rng, thorough, ctx.count) for _ in range(nh)]
